@@ -246,3 +246,14 @@ func H_C01_entry_uint32()  { vC01Entry(vKUint32) }
 func H_C01_entry_float64() { vC01Entry(vKFloat64) }
 func H_C01_entry_string()  { vC01Entry(vKString) }
 func H_C01_entry_slice()   { vC01Entry(vKSlice) }
+
+// the URL entry point carries the same string percent-encoded (any byte, blanks included)
+func H_C01_entry_url() {
+	rule := vndChoice("rule", 8)
+	x, m, isFloat := vC01Value(vKString, 3)
+	text, want := vC01Rule(rule, m, isFloat)
+	tag := "C01 " + vSizeRules[rule] + "/string"
+	err := Url("http://h/p?F="+vPctEncode(x.(string)), NewRule().Set("F", text))
+	vAssert((err != nil) == want, tag+": Url verdict")
+	vReach("end")
+}
